@@ -66,7 +66,7 @@ DefRows == {
   D("withdrawal_address",                  "addr",   <<"10", "1">>, <<"10", "1">>, 0, 4,  "fee_recipient_address"),
   D("validators[].fee_recipient_address",  "addr",   <<"10", "0">>, <<"10", "0">>, 5, 11, "self"),
   D("validators[].withdrawal_address",     "addr",   <<"10", "1">>, <<"10", "1">>, 5, 11, "self"),
-  D("deposit_amounts[]",                   "num",    <<"11">>,      <<"11">>,      8, 11, "self"),
+  D("deposit_amounts[]",                   "numstr", <<"11">>,      <<"11">>,      8, 11, "self"),   \* eth2p0.Gwei: quoted
   D("consensus_protocol",                  "str",    <<"12">>,      <<"12">>,      9, 11, ""),
   D("target_gas_limit",                    "num",    <<"13">>,      <<"13">>,      10, 11, ""),
   D("compounding",                         "bool",   <<"14">>,      <<"14">>,      10, 11, ""),
@@ -117,6 +117,8 @@ KindsOf(r) ==
   \cup (IF r.ty = "addr" THEN {"addr"} ELSE {})
   \cup (IF r.sib # "" THEN {"swap"} ELSE {})
 Rewrites == {"reencode", "keyorder", "indent", "hexcase", "addrcase"}
+\* the JSON token a leaf of an encoding is written as
+JsonKind(ty) == CASE ty = "num" -> "number" [] ty = "bool" -> "bool" [] OTHER -> "string"
 \* versions sharing one JSON layout of the definition: candidates for the "ver" alteration
 VerSiblings(v) == CASE v \in {0, 1} -> {0, 1} \ {v} [] v \in {2, 3} -> {2, 3} \ {v} [] v \in {5, 6, 7} -> {5, 6, 7} \ {v}
                     [] v \in {10, 11} -> {10, 11} \ {v} [] OTHER -> {}
